@@ -16,6 +16,13 @@ for f in fs:
 PY
 cd $O; for f in cases*.v; do [ -f $f ] && (coqc -noglob -R /verif/coq Rend $f > $f.out 2>&1 &) ; done
 while pgrep -f "coqc -noglob -R /verif/coq Rend cases" >/dev/null; do sleep 1; done
-cat cases*.v.out 2>/dev/null | tr '\n' ' ' | grep -o "bad = *\[[^]]*\]" | grep -v "bad = *\[\]" | cut -c1-200 | head -5
+python3 - <<'PY'
+import glob,re
+for f in sorted(glob.glob('cases*.v.out')):
+    t=open(f).read()
+    if 'bad =' not in t: print(f,'NO RESULT:',t[-300:].replace('\n',' ')); continue
+    ps=re.findall(r'\(\s*(\d+),\s*(\d+)\)', t[t.rindex('bad ='):])
+    if ps: print(f, 'bad:', ' '.join('(%s,%s)'%p for p in ps[:12]), '... %d in all'%len(ps))
+PY
 grep -l "Error" cases*.v.out 2>/dev/null | head -3
 echo "evaluated"
